@@ -175,6 +175,19 @@ CHECKS = {
         note=TB + ' The generators are not transcribed into Gallina: the claim is per grid point (exhaustive over the stated grid), not '
                   'for all distances and round counts; the distance uses the implementation\'s graphlike search (validated by C17).',
         design='§4 C19'),
+    'C20': dict(
+        technique='Coq proof of the 64x64 block transpose over passes regenerated from simd_util.cc + differential sweep of every '
+                  'kernel against bit-by-bit definitions and across word widths',
+        text='Proof: transpose64_correct for inplace_transpose_64x64 exactly as written (uint64 semantics), with the six (mask, shift) '
+             'passes and the pass body read from the source on every run (generated_transpose64_correct); transpose_involutive for '
+             'rectangular tables. Tie H: extracted model vs implementation on random/basis 64x64 blocks; transposed, transpose_into, '
+             'do_square_transpose, slice_maj, concat_major, resize, read_across_majors, square_mat_mul, inverse_assuming_lower_triangular '
+             'and the simd_bits operators/popcount/countr_zero/intersects/subset/truncated copy/clear_bits_past/invert/resize/masked '
+             'randomize against bit-by-bit definitions for W in {64,128,256} on shapes covering every residue class; identical '
+             'Tableau, TableauSimulator and circuit<->tableau computations under the three widths.',
+        note=TB + ' Only the 64x64 kernel is proved; the 128/256-bit inplace_transpose_square (intrinsics) and the other kernels are tied '
+                  'by the differential sweep whose reference loops live in the harness.',
+        design='§4 C20'),
 }
 
 PENDING = 'check not yet built in this round (see DESIGN.md §7 phasing); the Coq model for it is planned, not claimed'
